@@ -108,6 +108,39 @@ RECIPES.update({
 """)],
 })
 
+HEAD_DBG = '  if (al->assembly_mode == CHUNK_FITTING && al->debug)\n    debug_with_chunksize(al->buffer,\n                         buf_pos < (unsigned int)al->buffer_len\n                             ? buf_pos\n                             : (unsigned int)al->buffer_len,\n                         al->chunk_size);\n'
+RECIPES.update({
+ "C09-f": [("src/parser.c", HEAD_DBG, """  if (al->assembly_mode == CHUNK_FITTING && al->debug)
+    debug_with_chunksize(al->buffer + al->offset,
+                         buf_pos < (unsigned int)al->buffer_len
+                             ? buf_pos
+                             : (unsigned int)al->buffer_len,
+                         al->chunk_size);
+""")],
+ "C08-h": [("src/parser.c", HEAD_DBG, HEAD_DBG + """#ifdef __linux__
+  // an instance is often reused for many programs: a library-managed buffer
+  // that grew for a much longer one is trimmed back to one step above this one
+  if (!al->external &&
+      al->buffer_len > (int)buf_pos + 2 * MEM_BUFFER + BUFFER_TOLERANCE) {
+    int new_len = (int)buf_pos + MEM_BUFFER + BUFFER_TOLERANCE;
+    void *trimmed = mremap(al->buffer, al->buffer_len, new_len, MREMAP_MAYMOVE);
+    if (trimmed != MAP_FAILED) { // NOLINT
+      al->buffer = (uint8_t *)trimmed;
+      al->buffer_len = new_len;
+    }
+  }
+#endif
+""")],
+ "C13-f": [("src/parser.c", """  unsigned int buf_pos = al->offset;
+  // read str and assemble instruction line by line""", """  unsigned int buf_pos = al->offset;
+  // a chunk that covers the whole buffer has no boundary inside of it that an
+  // instruction could cross: plain assembly gives the same result
+  ASM_MODE mode = al->assembly_mode;
+  if (mode == CHUNK_FITTING && al->chunk_size >= (size_t)al->buffer_len)
+    mode = ASSEMBLE;
+  // read str and assemble instruction line by line"""), ("src/parser.c", "      switch (al->assembly_mode) {", "      switch (mode) {"), ("src/parser.c", "  if (al->assembly_mode == CHUNK_FITTING && al->debug)\n    debug_with_chunksize(al->buffer,", "  if (mode == CHUNK_FITTING && al->debug)\n    debug_with_chunksize(al->buffer,")],
+})
+
 def main(wt, only=None):
     head = subprocess.check_output("git -C /repo rev-parse --short HEAD", shell=True, text=True).strip()
     E.sh("git checkout -q --detach %s && git checkout -- . && git clean -fdq -e .libs" % head, cwd=wt)
